@@ -376,3 +376,36 @@ pub fn run_syntax()
 		}
 	}
 }
+
+/// lint-tree-eval: the linter on a function body in the same wire format; prints the lint codes.
+pub fn run_lint_tree()
+{
+	let stdin = std::io::stdin();
+	for line in stdin.lock().lines()
+	{
+		let line = line.unwrap();
+		let mut statements = Vec::new();
+		for part in line.split(' ').filter(|x| !x.is_empty())
+		{
+			statements.push(SP { s: part.as_bytes(), i: 0 }.stmt());
+		}
+		let decl = Declaration::Function {
+			name: id(10),
+			parameters: Vec::new(),
+			body: Ok(FunctionBody {
+				statements,
+				return_value: None,
+				return_value_identifier: id(11),
+			}),
+			return_type: Ok(penne::alpha::value_type::ValueType::Void),
+			flags: EnumSet::new(),
+			location_of_declaration: loc(),
+			location_of_return_type: loc(),
+		};
+		let mut linter = penne::alpha::linter::Linter::default();
+		linter.lint(&decl);
+		let lints: Vec<penne::alpha::linter::Lint> = linter.into();
+		let codes: Vec<u16> = lints.iter().map(|l| l.code()).collect();
+		println!("{:?}", codes);
+	}
+}
